@@ -28,12 +28,14 @@ ASSUMPTIONS = ['names written to files are right-justified (format documentation
 
 KEYWORD_PAIRS = [('CON', 'NEC'), ('LAY', 'ERS'), ('VER', 'TIC'), ('SUR', 'FAC'), ('WEL', 'LSA'), ('GRI', 'DXY'), ('CON', 'NE '), ('SUR', 'F A')]
 ODD_WELLS = ['WELLS', 'LAYER', 'SURFA', 'CONNE', 'VERTI', 'GRIDS', ' GRID', ' SURF', '12345', '  1.5']
-NUMBER_NAMES = ['123', ' 12', '1e3', '  0', '0.5', ' -1', '+ 2', 'nan', 'inf', '1d2', '9 9']
+NUMBER_NAMES = ['123', ' 12', '1e3', '  0', '0.5', ' -1', '+ 2', 'nan', 'inf', '1d2', '9 9', '001', ' 07', '010', '000']
+NUMBER_NAMES2 = ['01', '07', ' 5', '1e', '12', '00', '-1', '.5']
 
 
 def give_odd_names(g, spec, R):
     """rename columns (3-character column names only) through the public rename_column"""
-    if g.colname_length != 3 or not g.connectionlist: return
+    if not g.connectionlist: return
+    if g.colname_length != 3 and spec['kind'] == 'keyword': return
     taken = set(c.name for c in g.columnlist) | set(n.name for n in g.nodelist)
     done = set()
     if spec['kind'] == 'keyword':
@@ -49,7 +51,8 @@ def give_odd_names(g, spec, R):
     else:
         cols = geo.ordered_columns(g)
         for k in range(spec['n']):
-            nm = NUMBER_NAMES[(spec['seed'] + k) % len(NUMBER_NAMES)]
+            pool = NUMBER_NAMES if g.colname_length == 3 else NUMBER_NAMES2
+            nm = pool[(spec['seed'] + k) % len(pool)]
             col = cols[(spec['seed'] * 7 + k * 13) % len(cols)]
             if col.name in done or nm in taken: continue
             with R.lib('rename_column'): g.rename_column(col.name, nm)
@@ -65,6 +68,8 @@ def case_strategy():
         if draw(st.integers(0, 3)) == 0:
             rc['centres'] = [[draw(st.sampled_from([0, 0, 1, 2, 7, 50, 300])), draw(st.sampled_from([-0.5, 0.0, 0.0, 0.3])),
                               draw(st.sampled_from([-0.25, 0.0, 0.0, 0.6]))] for _ in range(draw(st.integers(1, 3)))]
+        if draw(st.integers(0, 7)) == 0:
+            rc['sunk'] = [[draw(st.integers(0, 300)), draw(st.sampled_from([0.25, 15.25, 0.01, 100.0]))] for _ in range(draw(st.integers(1, 2)))]
         c = {'k': 'gen', 'rc': rc}
         if draw(st.integers(0, 4)) == 0: c['top_centre'] = draw(st.sampled_from([0.01, 0.25, 5.0, -0.5]))
         if draw(st.integers(0, 2)) == 0:
